@@ -115,10 +115,9 @@ def rewriteFilters {α} [DecidableEq α] (p : T α) : T α :=
 
 /-! ### 2b. how `Filter._simplify_up` re-assembles its parent after the rewrite -/
 
-/-- `type(parent)(Filter(frame, result), *parent.operands[1:])` on the parent's operand list -/
-def rebuildFirst {ε} (operands : List ε) (new : ε) : List ε := new :: operands.drop 1
-
-/-- replacing the operand that is the filter, wherever it sits (what `parent.substitute(self, new)` does at depth 1) -/
+/-- `parent.substitute(self, Filter(frame, result))` seen on the parent's operand list: the operand that is the
+    filter is replaced wherever it sits (deeper occurrences inside other operands are replaced by the same
+    function recursively; the harness applies the real `substitute` to those operands) -/
 def substituteOperand {ε} [DecidableEq ε] (operands : List ε) (self new : ε) : List ε :=
   operands.map (fun o => if o = self then new else o)
 
@@ -315,11 +314,12 @@ def evalODNF {α} (t : α → Bool) : Option (DNF α) → Bool
   | some d => evalDNF t d
 
 /-- `_DNF.extract_pq_filters(pq_expr, predicate)._filters`; `none` = not expressible.
-    Only `col <op> const` comparisons are translated (the mirrored `const <op> col` branch of the
-    code is dead: its guard asks `predicate.left` to be both a non-Expr and a Projection). -/
+    Only `col <op> const` comparisons with `<op>` in LE/GE/LT/GT/EQ are translated: `!=` is excluded (a reader
+    drops the rows where the column is null, pandas keeps them), and the mirrored `const <op> col` branch of the
+    code is dead (its guard asks `predicate.left` to be both a non-Expr and a Projection). -/
 def extractPq : T Atom → Option (DNF Atom)
   | .atom a => match a with
-      | .cmp _ _ _ => some [[a]]
+      | .cmp _ op _ => if op = .ne then none else some [[a]]
       | _ => none
   | .and l r => match extractPq l, extractPq r with
       | some dl, some dr =>
@@ -334,8 +334,8 @@ def extractPq : T Atom → Option (DNF Atom)
 /-- `ReadParquet._filter_passthrough_available` beyond the generic test: the class tuple and extractability -/
 def readerAccepts : T Atom → Bool
   | .not _ => false
-  | .atom (.cmp _ _ _) => true
-  | .atom (.colcmp _ _ _) => false     -- LE/…/NE class but `extract_pq_filters` gives None
+  | .atom (.cmp _ op _) => op != .ne    -- NE is neither in the class tuple nor extractable
+  | .atom (.colcmp _ _ _) => false     -- LE/…/EQ class but `extract_pq_filters` gives None
   | .atom _ => false
   | p => (extractPq p).isSome
 
@@ -364,30 +364,38 @@ inductive PredCols where
   | neither
 deriving DecidableEq, Repr
 
-/-- `Merge._filter_passthrough_available(parent, dependents)`.
-    `avail` = `is_filter_pushdown_available(self, parent, dependents)`,
-    `isAnd` = `isinstance(parent.predicate, And)`,
-    `leftConjunctIsDependent` = `Filter(self, predicate.left)` is among the dependents of the merge. -/
-def mergeFilterAvail (avail : Bool) (how : How) (pc : PredCols) (isAnd leftConjunctIsDependent : Bool) : Bool :=
-  if avail then
-    match pc with
-    | .unknown => false
-    | .empty | .left | .both => how == .left || how == .inner || how == .leftsemi
-    | .right => how == .right || how == .inner
-    | .neither => false
-  else if isAnd then leftConjunctIsDependent
-  else false
-
-/-- side selection of `Merge._simplify_up(Filter)` for a non-`And` predicate:
-    `(filter left input, filter right input)`; `(false,false)` = the rule returns `None`.
+/-- `Merge._filter_sides(predicate_cols)`: into which inputs a filter on these output columns can go —
+    the columns must all be columns of that input and must not be renamed by that input's suffix.
     `lcoll` = `left_suffix != "" and any(col+left_suffix in self.columns and col in right.columns)`,
     `rcoll` symmetric. -/
-def mergePushSides (pc : PredCols) (lcoll rcoll : Bool) : Bool × Bool :=
+def mergeFilterSides (pc : PredCols) (lcoll rcoll : Bool) : Bool × Bool :=
   match pc with
   | .unknown | .empty | .neither => (false, false)
   | .left => (!lcoll, false)
   | .right => (false, !rcoll)
   | .both => (!lcoll, !rcoll)
+
+/-- `Merge._filter_passthrough_available(parent, dependents)`.
+    `avail` = `is_filter_pushdown_available(self, parent, dependents)`,
+    `isAnd` = `isinstance(parent.predicate, And)`,
+    `leftConjunctIsDependent` = `Filter(self, predicate.left)` is among the dependents of the merge. -/
+def mergeFilterAvail (avail : Bool) (how : How) (pc : PredCols) (lcoll rcoll : Bool)
+    (isAnd leftConjunctIsDependent : Bool) : Bool :=
+  if avail then
+    match pc with
+    | .unknown => false
+    | _ =>
+      let sides := mergeFilterSides pc lcoll rcoll
+      if sides.1 then how == .left || how == .inner || how == .leftsemi
+      else if sides.2 then how == .right || how == .inner
+      else if pc != .empty then false     -- `len(predicate_columns) > 0`
+      else true
+  else if isAnd then leftConjunctIsDependent
+  else false
+
+/-- side selection of `Merge._simplify_up(Filter)` for a non-`And` predicate: the same `_filter_sides`;
+    `(false,false)` = the rule returns `None` (the filter is not dropped) -/
+def mergePushSides (pc : PredCols) (lcoll rcoll : Bool) : Bool × Bool := mergeFilterSides pc lcoll rcoll
 
 /-! ### 7. joins: semantics on row lists -/
 
@@ -455,6 +463,10 @@ def semanticSides (pc : PredCols) (lcoll rcoll : Bool) : Bool × Bool :=
 inductive Category where
   /-- row i of the output is a function of row i of the input, and the columns a predicate can read keep their values -/
   | rowLocalValuePreserving
+  /-- row i of the output is a function of row i of the input; values may change (a cast).  The class substitutes
+      its input into the predicate only under its own value-preservation guard, otherwise the pushed filter's
+      predicate keeps reading the operator's output -/
+  | rowLocalGuarded
   /-- a permutation of the rows -/
   | reorder
   /-- identity on the concatenation of the partitions -/
@@ -469,7 +481,7 @@ deriving DecidableEq, Repr
 
 /-- categories for which Props/C03.lean proves that a filter commutes with the operator -/
 def Category.filterCommuting : Category → Bool
-  | .rowLocalValuePreserving | .reorder | .partitionOnly | .rowSelect => true
+  | .rowLocalValuePreserving | .rowLocalGuarded | .reorder | .partitionOnly | .rowSelect => true
   | .needsOwnCheck | .unclassified => false
 
 structure FlagEntry where
